@@ -193,7 +193,7 @@ func (m *Master) perform(t *simTask, ev string, d *delivered, out Outcome) {
 	}
 	die := func() {
 		st := out.MesosState
-		if st == mesos.TASK_STAGING { // zero value
+		if st == mesos.TASK_STARTING { // zero value = unset
 			st = mesos.TASK_FAILED
 		}
 		m.updateLocked(t, st, mesos.SOURCE_EXECUTOR, nil, "simulated task death")
@@ -219,7 +219,7 @@ func (m *Master) perform(t *simTask, ev string, d *delivered, out Outcome) {
 		case Silent:
 		default:
 			st := out.MesosState
-			if st == mesos.TASK_STAGING {
+			if st == mesos.TASK_STARTING { // zero value = unset
 				// basic/hook tasks answer Kill with TASK_FINISHED, controllable ones with TASK_KILLED
 				if t.mode == controlmode.BASIC || t.mode == controlmode.HOOK {
 					st = mesos.TASK_FINISHED
